@@ -16,7 +16,8 @@ def _scale(batches):
   m = 1.0
   for b in batches:
     for v in os_._flat(b):
-      if isinstance(v, (int, float)) and not (isinstance(v, float) and math.isnan(v)):
+      if isinstance(v, (int, float)) and not (
+          isinstance(v, float) and (math.isnan(v) or math.isinf(v))):
         m = max(m, abs(v))
   return m
 
@@ -26,7 +27,8 @@ def _spread(batches):
   lo, hi = None, None
   for b in batches:
     for v in os_._flat(b):
-      if isinstance(v, (int, float)) and not (isinstance(v, float) and math.isnan(v)):
+      if isinstance(v, (int, float)) and not (
+          isinstance(v, float) and (math.isnan(v) or math.isinf(v))):
         lo = v if lo is None else min(lo, v)
         hi = v if hi is None else max(hi, v)
   if lo is None:
@@ -99,6 +101,8 @@ def check_meanvar(ctx, case):
   from ml_metrics._src.aggregates import rolling_stats as rs
   from ml_metrics._src.metrics import rolling_stats as mrs
 
+  if (case.get('config') or {}).get('inf'):
+    return check_meanvar_inf(ctx, case)
   sub, batches = case['sub'], case['input']['batches']
   dtype = {'int32': np.int32, 'int64': np.int64}.get(
       (case.get('config') or {}).get('dtype'), float)
@@ -175,6 +179,115 @@ def check_meanvar(ctx, case):
     mis.add('raised', None, {'error': repr(e)[:300]})
   if not mis.flush(ctx, case) and len(ctx.samples) < 2:
     ctx.sample({'family': 'stats', 'sub': sub, 'input': case['input']})
+
+
+KEY_INF_DROPPED = 'mean-variance-drops-batch-containing-inf'
+KEY_INF_MINUS_INF = 'mean-merge-infinite-mean-then-finite-batch-gives-nan'
+
+
+def check_meanvar_inf(ctx, case):
+  """Input class: +inf / -inf among finite values, no NaN (config {'inf': True}).
+
+  The values are regrouped into several batchings (as given, one batch, one row
+  per batch, batches in reverse order, one accumulator per batch merged); every
+  accumulator must count every value and report the mean / variance / total of
+  the whole data in kind (finite value, +inf, -inf or NaN) - see
+  c07_stats.column_stats. Mismatches are keyed per column by its input class:
+  MeanAndVariance / Var with any inf in the column, or Mean with +inf and -inf
+  in the column (some operand has values but a NaN statistic) vs. Mean with inf
+  of one sign only (the mean is +-inf, nothing is NaN until the update formula
+  subtracts infinities).
+  """
+  import numpy as np
+  from ml_metrics._src.aggregates import rolling_stats as rs
+  from ml_metrics._src.metrics import rolling_stats as mrs
+
+  sub, batches = case['sub'], case['input']['batches']
+  cls = {'mean': rs.Mean, 'meanvar': rs.MeanAndVariance, 'var': rs.Var}[sub]
+  rows = _rows(batches)
+  two_d = isinstance(rows[0], (list, tuple))
+  cols = [[r[j] for r in rows] for j in range(len(rows[0]))] if two_d else [rows]
+  scale, spread = _scale(batches), _spread(batches)
+  mis = cm.Mis()
+  ctx.case(('stats', sub, 'inf', case['input']), len(rows) >= 2)
+  ctx.count('stats_meanvar_cases')
+  ctx.count('stats_inf_cases')
+
+  def key(j):
+    cs = cols if j is None else [cols[j]]
+    pos = any(math.inf in c for c in cs)
+    neg = any(-math.inf in c for c in cs)
+    if not (pos or neg):
+      return None
+    if sub != 'mean' or any(math.inf in c and -math.inf in c for c in cs):
+      return KEY_INF_DROPPED
+    return KEY_INF_MINUS_INF
+
+  def compare(got_fields, want, path):
+    for k, g in got_fields.items():
+      sc = _var_scale(scale, spread) if k in ('var', 'stddev') else scale
+      if k == 'total':
+        sc = scale * max(1, len(rows))
+      w = want[k]
+      wl = w if isinstance(w, list) else [w]
+      a = np.asarray(g, dtype=float)
+      ctx.count('stats_value_checks')
+      if a.shape != ((len(wl),) if isinstance(w, list) else ()):
+        mis.add('value_mismatch', key(None),
+                {'stat': k, 'path': path, 'got': g, 'want': w, 'why': 'shape'})
+        continue
+      for j, (gj, wj) in enumerate(zip(a.ravel().tolist(), wl)):
+        ok = (_std_close(gj, wj, sc) if k == 'stddev' else cm.close(gj, wj, sc))
+        if not ok:
+          mis.add('value_mismatch', key(j if two_d else None),
+                  {'stat': k, 'path': path, 'column': j if two_d else None,
+                   'got': gj, 'want': wj})
+
+  def result_fields(obj):
+    if sub == 'mean':
+      return {'mean': obj}
+    if sub == 'var':
+      return {'var': obj}
+    return {k: getattr(obj, k) for k in ('mean', 'var', 'stddev', 'count', 'total')}
+
+  def acc_fields(m):
+    names = ('count', 'mean', 'total') + (() if sub == 'mean' else ('var', 'stddev'))
+    return {k: getattr(m, k) for k in names}
+
+  first = batches[0]
+  want_first, want_all = os_.nan_stats(first), os_.nan_stats(rows)
+  arr = lambda b: np.asarray(b, dtype=float)
+  batchings = {'as given': batches, 'one batch': [rows],
+               'row by row': [[r] for r in rows]}
+  if len(batches) > 1:
+    batchings['reversed'] = batches[::-1]
+  try:
+    with cm.observed_warnings(ctx, 'stats'):
+      compare(result_fields(cls()(arr(first))), want_first, '__call__')
+      compare(result_fields(cls().as_agg_fn()(arr(first))), want_first, 'agg_fn')
+      for name, bs in batchings.items():
+        m = cls()
+        for b in bs:
+          m.add(arr(b))
+        ctx.count('stats_accumulator_checks')
+        ctx.count('stats_inf_batching_checks')
+        compare(acc_fields(m), want_all, f'accumulator[{name}]')
+      if len(batches) > 1:
+        parts = []
+        for b in batches:
+          m = cls()
+          m.add(arr(b))
+          parts.append(m)
+        for other in parts[1:]:
+          parts[0].merge(other)
+        ctx.count('stats_accumulator_checks')
+        compare(acc_fields(parts[0]), want_all, 'merge[one accumulator per batch]')
+      for name in ('mean', 'var', 'stddev', 'count', 'total'):
+        ctx.count('stats_function_api_checks')
+        compare({name: getattr(mrs, name)(first)}, want_first, 'metrics.rolling_stats')
+  except Exception as e:  # pylint: disable=broad-exception-caught
+    mis.add('raised', key(None), {'error': repr(e)[:300]})
+  mis.flush(ctx, case)
 
 
 MINMAX_ZERO = 'minmax-max-initialised-at-zero'
